@@ -367,9 +367,12 @@ var vC08Corpus = []string{
 	"i = 0; while i < 9 { i = i + 1; continue; &v1 = i + 1 }; i",
 	"i = 0; while i < 9 { i = i + 1; break; func fn1() { j = 0; while j < 2 { j = j + 1; break } }; &v1 = 2; continue }; i",
 	"i = 0; while i < 9 { i = i + 1; break; ^st&力量=i }; i",
+	// bodies that do not fit the 8192-instruction buffer (rejected - or, if accepted, verified like any other)
+	"func fn1() { if 1 { " + strings.Repeat("x+", 2790) + "1 } }; fn1()",
+	"&v1 = 1 ? (" + strings.Repeat("x+", 2790) + "1) : 2; v1",
 }
 
-//vh:prop=C08 tiers=quick,thorough sigkeys=prog budget_s=600 bounds="48 programs composing every control construct (short-circuit, ternary, multi-arm, if/else-if, nested loops with break/continue, functions with early return, computed values, templates with statement holes, chained indexing/attributes, every dice family), verified as in VH_C08_src; in addition the loops are recovered from the backward jumps and the number of jumps to the instruction after a loop's end / back to a loop's head must equal the number of break / continue statements written (a placeholder left unpatched is a jump to the next instruction)"
+//vh:prop=C08 tiers=quick,thorough sigkeys=prog maxsteps=600000000 budget_s=900 bounds="50 programs composing every control construct (short-circuit, ternary, multi-arm, if/else-if, nested loops with break/continue, functions with early return, computed values, templates with statement holes, chained indexing/attributes, every dice family), verified as in VH_C08_src; in addition the loops are recovered from the backward jumps and the number of jumps to the instruction after a loop's end / back to a loop's head must equal the number of break / continue statements written (a placeholder left unpatched is a jump to the next instruction)"
 func VH_C08_corpus() {
 	k := vChoice("prog", len(vC08Corpus))
 	vm := vNewVM()
